@@ -79,7 +79,18 @@ func (s *spyHeaders) VerifyHeader(ctx context.Context, h *wire.BlockHeader) erro
 
 type spyPeers struct {
 	*bitcoin_reader.StoragePeerRepository
-	addCalls int32
+	addCalls    int32
+	updateCalls int32 // UpdateTime / UpdateScore: writes to an entry of the address book
+}
+
+func (s *spyPeers) UpdateTime(ctx context.Context, address string) bool {
+	atomic.AddInt32(&s.updateCalls, 1)
+	return s.StoragePeerRepository.UpdateTime(ctx, address)
+}
+
+func (s *spyPeers) UpdateScore(ctx context.Context, address string, delta int32) bool {
+	atomic.AddInt32(&s.updateCalls, 1)
+	return s.StoragePeerRepository.UpdateScore(ctx, address, delta)
 }
 
 func (s *spyPeers) Add(ctx context.Context, address string) (bool, error) {
@@ -678,6 +689,12 @@ func (s *session) run(behIdx int) []sessDiv {
 				}
 			}
 			fail(step, p, fmt.Sprintf("after %s: sinks reached %v, spec says %v", st.Msg, keys(gotSinks), keys(wantSinks)))
+		}
+		if upd := atomic.LoadInt32(&s.peers.updateCalls); upd > 0 && !wasReady && !st.St.Ready {
+			// the scripted connection is handed to the node ready-made (no dial, hence no "connected" time stamp):
+			// before the peer is verified nothing writes to the address book, not even to the peer's own entry
+			hard = true
+			fail(step, "C13", fmt.Sprintf("after %s: the address book was written (UpdateTime / UpdateScore, %d calls) for a peer that is not verified", st.Msg, upd))
 		}
 		if s.node.Verified() != st.St.Verified {
 			p := "C13"
